@@ -174,7 +174,8 @@ Section PwNorm2.
 Variable af : nat -> Rvec -> Rvec.
 Variable ad : nat -> Rvec -> Rvec -> Rvec.
 Variable adm arn : nat -> space.
-Notation P := (PR af ad adm arn).
+Variable rv : bool.
+Notation P := (PR af ad adm arn rv).
 
 Lemma pwnorm2_curve n w c x d :
   curve (length w * n) c x d ->
